@@ -155,6 +155,7 @@ def build_lib(variant):
 def build_refdec(variant):
     """R is the oracle: compiled without sanitizers whatever the variant (clang for clang variants, for ABI of msan irrelevant)."""
     d = build_lib(variant)
+    v_ = VARIANTS[variant]
     o = os.path.join(d, 'refdec.o')
     src = [os.path.join(HDIR, 'refdec', f) for f in ('refdec.c', 'refdec_core.c', 'refdec.h', 'refdec_core.h')]
     stamp = _hash_files(src)
@@ -162,7 +163,10 @@ def build_refdec(variant):
     with _Lock(os.path.join(BUILD, variant, '.lock')):
         if os.path.exists(o) and os.path.exists(sf) and open(sf).read() == stamp:
             return o
-        _run(['gcc', '-O2', '-g', '-c', src[0], '-o', o], 'compile refdec')
+        if variant == 'msan':    # MemorySanitizer needs every object of the process instrumented, the oracle included (no verdict comes from that instrumentation)
+            _run([v_['cc']] + v_['cflags'] + ['-c', src[0], '-o', o], 'compile refdec (msan)')
+        else:
+            _run(['gcc', '-O2', '-g', '-c', src[0], '-o', o], 'compile refdec')
         open(sf, 'w').write(stamp)
     return o
 
